@@ -21,6 +21,9 @@ RULE = ('node configurations of up to 5 declared modules (plain / HasIO with uri
         'modules), every module with 0-2 attachments (target: any declared or scanned module, a missing module, or not '
         'given; mandatory/optional; required base class; accessed in earlyInit or initModule), export flag, polling flag, '
         '0-2 configured start values (one of the writes may fail with CommunicationFailedError / HardwareError / RuntimeError), '
+        'fault scripts for the poll-thread start-up (initialReads or the first call of a read function raises '
+        'CommunicationFailedError - the start-up is abandoned, early started callback, short wait - or HardwareError / '
+        'RuntimeError - absorbed), a family of 2-3 modules sharing one communicator thread with the fault at every position, '
         'failing earlyInit/initModule, hanging first poll round; all declaration orders come '
         'from the generator (targets are chosen independently of the order, cycles included); a schedule interleaves '
         'startModule calls, poll thread steps and the start time-out; a family of hand-over schedules lets the first poll '
@@ -29,11 +32,14 @@ RULE = ('node configurations of up to 5 declared modules (plain / HasIO with uri
         'thread; distinct = distinct (configuration, effective schedule)')
 ASSUMPTIONS = [
     'module classes are the instrumented classes of harness/props/C15.py (earlyInit/initModule access the attachments, '
-    'read functions and initialReads do not raise, write functions raise when scripted; the CommunicationFailedError path '
-    'of initialReads / of the first reads in the poll thread start-up is not modelled)',
+    'write functions, initialReads and the first call of a read function raise when scripted: CommunicationFailedError, '
+    'HardwareError or RuntimeError)',
     'poll threads are real threads run one at a time by a baton scheduler; a thread step ends at the next instrumented '
-    'event (and where a poll thread sets the flag of the start MultiEvent without holding its lock); after the started callback (or after the node reported ready) threads run freely and only their per-thread '
-    'order is checked',
+    'event (and where a poll thread sets the flag of the start MultiEvent without holding its lock); the wait of 0.1 s after '
+    'a communication failure is virtual; a thread stays under the scheduler through the started callback, that wait and '
+    'the first pass of its regular loop (doPoll of every polled module); after that pass (or after the node reported '
+    'ready) threads run freely in real time and only their per-thread order is checked; before shutdown_modules is '
+    'called every thread is given (bounded) time to finish that first pass',
     'the recursion limit of CPython enters as data: for cyclic attachments only the outcome (configuration error, node '
     'not started) is compared, not the number of repeated initialisations',
     'the iteration order of the python set used by _getSortedModules enters as data (pop order)',
@@ -66,6 +72,9 @@ class _Th:
         self.hung = False
         self.done = False
         self.thread = None
+        self.steps = 0          # scheduler steps given to this thread (capped: a mutant may spin)
+        self.expected = 0       # doPoll calls of the first pass of the regular loop (one per polled module served)
+        self.ndopoll = 0
 
 
 class _Sched:
@@ -95,6 +104,11 @@ class _Sched:
                 self.log.append(ev)
             return
         if th.free or self.free_all:
+            if len(self.tlog) > 3000:
+                # call cap: a (mutated) poll thread that spins through instrumented calls is slowed down, not logged
+                import time as _time
+                _time.sleep(0.005)
+                return
             with self.lock:
                 self.freelog.append([th.tid] + ev)
                 self.tlog.append([th.tid] + ev)
@@ -142,6 +156,13 @@ class _Sched:
 
     def step(self, tid):
         th = self.threads[tid]
+        th.steps += 1
+        if th.steps > 300:
+            # step cap: no poll thread of the pinned code needs that many steps; a thread that spins through
+            # instrumented calls (mutant) is released from the scheduler instead of starving the others
+            th.free = True
+            th.go.release()
+            return
         th.go.release()
         th.back.acquire()
         self.eff.append(['T', tid])
@@ -233,12 +254,18 @@ def run_case(case):
     sched = _Sched(case.get('sched', []))
     decls = {d['id']: d for d in all_decls(case)}
     alive_at_shutdown = []
+    served = {}             # poll thread -> the modules it serves, in the order of polledModules
 
     def decl_of(name):
         i = _id(name)
         if i >= IO_BASE:
             return {'id': i, 'hang': False}
         return decls[i]
+
+    read_failed = set()
+
+    def _exc(kind):
+        return {'comm': CommunicationFailedError, 'hw': HardwareError}.get(kind, RuntimeError)
 
     class TagA(Module):
         pass
@@ -297,22 +324,30 @@ def run_case(case):
 
         def initialReads(self):
             sched.event(['ireads', _id(self.name)], hang=bool(decl_of(self.name).get('hang')))
+            kind = decl_of(self.name).get('ifail')
+            if kind:            # fault script: initialReads raises (after the call was logged)
+                raise _exc(kind)('scripted initialReads failure')
             super().initialReads()
 
-        def read_x0(self):
-            sched.event(['read', _id(self.name), 0])
+        def _read(self, k):
+            sched.event(['read', _id(self.name), k])
+            for kk, kind in decl_of(self.name).get('rfail') or []:
+                if kk == k and (_id(self.name), k) not in read_failed:
+                    read_failed.add((_id(self.name), k))    # the first call fails, the device has recovered afterwards
+                    raise _exc(kind)('scripted read failure')
             return 1.0
 
+        def read_x0(self):
+            return self._read(0)
+
         def read_x1(self):
-            sched.event(['read', _id(self.name), 1])
-            return 1.0
+            return self._read(1)
 
         def _write(self, k, value):
             sched.event(['write', _id(self.name), k])
             for kk, kind in decl_of(self.name).get('wfail') or []:
                 if kk == k:         # fault script: this write fails (after the attempt was logged)
-                    raise {'comm': CommunicationFailedError, 'hw': HardwareError}.get(kind, RuntimeError)(
-                        'scripted write failure')
+                    raise _exc(kind)('scripted write failure')
             return value
 
         def write_x0(self, value):
@@ -323,6 +358,12 @@ def run_case(case):
 
         def doPoll(self):
             sched.event(['dopoll', _id(self.name)])
+            th = sched.current()
+            if th is not None:
+                th.ndopoll += 1
+                if th.ndopoll >= th.expected and not th.free:
+                    # first pass of the regular loop done: from here on the thread depends on real time, it runs freely
+                    sched.finished(th)
 
     params = {'x0': Parameter('x0', FloatRange(), default=0, readonly=False),
               'x1': Parameter('x1', FloatRange(), default=0, readonly=False)}
@@ -391,11 +432,14 @@ def run_case(case):
         th = _Th(tid)
         real_cb = args[-1]
 
+        th.expected = sum(1 for m in args[0] if m.enablePoll)
+        served[tid] = [_id(m.name) for m in args[0]]
+
         def started():
+            # the thread stays under the scheduler after the callback: the wait after a communication failure and the
+            # first pass of the regular loop (doPoll of every polled module) are instrumented events too
             sched.event(['started', tid])
             real_cb()
-            if not th.free:
-                sched.finished(th)
 
         def body():
             sched.by_ident[threading.get_ident()] = th
@@ -403,10 +447,11 @@ def run_case(case):
                 func(*(args[:-1] + (started,)), **kwds)
             finally:
                 if not th.free and not sched.free_all:
-                    # thread ended without calling the started callback
+                    # thread ended (nothing to poll, or without calling the started callback)
                     th.free = True
                     th.done = True
                     th.back.release()
+                th.done = True
         t = threading.Thread(target=body, name=f'poll-{tid}', daemon=True)
         th.thread = t
         sched.threads[tid] = th
@@ -417,6 +462,10 @@ def run_case(case):
     def my_wait(self, timeout=None):
         if isinstance(self, MultiEvent) and not sched.free_all:
             return sched.main_wait(self)
+        if timeout == 0.1 and not isinstance(self, MultiEvent) and sched.current() is not None:
+            # triggerPoll.wait(0.1) of the poll thread start-up after a communication failure: virtual time
+            sched.event(['cwait', sched.current().tid])
+            return self.is_set()
         return orig_wait(self, timeout)
 
     def my_set(self):
@@ -464,6 +513,14 @@ def run_case(case):
         if secnode is not None:
             pop_order = [_id(n) for n in set(secnode.modules.keys())]
             if outcome in ('ready', 'timeout'):
+                # the node is serving now: let every poll thread get through the first pass of its regular loop
+                # (bounded; a thread that hangs for real is left alone) before the shutdown empties its module list
+                import time as _time
+                t_end = _time.time() + 1.0
+                while _time.time() < t_end and any(
+                        th.thread is not None and th.thread.is_alive() and th.ndopoll < th.expected
+                        for th in sched.threads.values()):
+                    _time.sleep(0.0005)
                 with sched.lock:
                     sched.tlog.append(['*', 'shutdown-begins'])
                 try:
@@ -495,7 +552,8 @@ def run_case(case):
         with sched.lock:
             log = [list(e) for e in sched.log]
             free = [list(e) for e in sched.freelog[:200]]
-            tlog = [list(e) for e in sched.tlog[:400]]
+            # a spinning (mutated) thread may fill the thread log: beyond 400 entries only the writes and the marker are kept
+            tlog = [list(e) for n, e in enumerate(sched.tlog) if n < 400 or e[0] == '*' or e[1] == 'write']
         if recursion and len(log) > 60:
             log = log[:30] + [['...']] + log[-20:]
         obs.update({
@@ -505,6 +563,7 @@ def run_case(case):
             'sched': sched.eff, 'pop_order': pop_order, 'alive_at_shutdown': alive_at_shutdown,
             'recursion': recursion,
             'threads': sorted(sched.threads),
+            'served': [[t, served[t]] for t in sorted(served)],
             'leaked_threads': sorted(t.tid for t in sched.threads.values() if t.thread is not None and t.thread.is_alive()),
         })
         return obs
@@ -528,6 +587,22 @@ def enc_att(a):
         'PEarly' if a['phase'] == 'early' else 'PInit'))
 
 
+def comm_fault(d):
+    """the CommunicationFailedError of the fault script of a module: 'ireads', ('read', k) or None.  Failures of another
+    kind are absorbed by the code under test and do not appear in the model."""
+    if d.get('ifail') == 'comm':
+        return 'ireads'
+    ks = sorted(k for k, kind in d.get('rfail') or [] if kind == 'comm')
+    if ks and d.get('poll'):
+        return ('read', ks[0])
+    return None
+
+
+def enc_cfail(d):
+    f = comm_fault(d)
+    return 'CFNone' if f is None else 'CFIReads' if f == 'ireads' else f'(CFRead {gal.nat(f[1])})'
+
+
 def enc_decl(d):
     if d['kind'] == 'plain':
         kind = 'KPlain'
@@ -539,17 +614,18 @@ def enc_decl(d):
         kind = '(KPinata %s)' % gal.lst([s['id'] for s in d.get('scan') or []], gal.nat)
     export = False if d['kind'] == 'pinata' else d['export']
     return ('{| d_kind := %s; d_tag := %s; d_export := %s; d_atts := %s; d_poll := %s; d_writes := %s; '
-            'd_fail_early := %s; d_fail_init := %s; d_hang := %s |}' % (
+            'd_fail_early := %s; d_fail_init := %s; d_hang := %s; d_cfail := %s |}' % (
                 kind, gal.nat(d['tag']), gal.boolean(export), gal.lst(d['atts'], enc_att), gal.boolean(d['poll']),
                 gal.lst(sorted(d['writes']), gal.nat), gal.boolean(d['fail_early']), gal.boolean(d['fail_init']),
-                gal.boolean(d.get('hang'))))
+                gal.boolean(d.get('hang')), enc_cfail(d)))
 
 
 def enc_event(e):
     k = e[0]
-    if k in ('early', 'init', 'start', 'ireads', 'started', 'stop', 'shutdown'):
+    if k in ('early', 'init', 'start', 'ireads', 'started', 'stop', 'shutdown', 'cwait', 'dopoll'):
         return '(%s %s)' % ({'early': 'EEarly', 'init': 'EInit', 'start': 'EStart', 'ireads': 'EIReads',
-                             'started': 'EStarted', 'stop': 'EStop', 'shutdown': 'EShutdown'}[k], gal.nat(e[1]))
+                             'started': 'EStarted', 'stop': 'EStop', 'shutdown': 'EShutdown', 'cwait': 'ECWait',
+                             'dopoll': 'EDoPoll'}[k], gal.nat(e[1]))
     if k == 'see':
         return f'(ESee {gal.nat(e[1])} {gal.nat(e[2])} {gal.option(e[3], gal.nat)} {gal.boolean(e[4])})'
     if k in ('write', 'read'):
@@ -856,7 +932,31 @@ def _pinata_created_through_attachment(case, obs, failure):
     return False
 
 
-FINDING_CLASSIFIERS = {'pinata_created_through_attachment': _pinata_created_through_attachment}
+def _later_modules_skipped_after_comm_failure(case, obs, failure):
+    """configured values of a module never written (and the module polled nevertheless), and this module is served by a
+    poll thread AFTER a module whose initialReads raised CommunicationFailedError: the start-up sequence of
+    __pollThread is abandoned at that point and never resumed"""
+    if failure['class'] == 'writes-not-done':
+        if 'not written when' not in failure['what']:
+            return False
+    elif failure['class'] != 'polled-before-written':
+        return False
+    mods = failure.get('modules') or []
+    if not mods:
+        return False
+    decls = {d['id']: d for d in all_decls(case)}
+    for m in mods:
+        ok = False
+        for t, lst in obs.get('served') or []:
+            if m in lst and any(decls.get(x, {}).get('ifail') == 'comm' for x in lst[:lst.index(m)]):
+                ok = True
+        if not ok:
+            return False
+    return True
+
+
+FINDING_CLASSIFIERS = {'pinata_created_through_attachment': _pinata_created_through_attachment,
+                       'later_modules_skipped_after_comm_failure': _later_modules_skipped_after_comm_failure}
 
 
 def nontrivial_key(case, obs):
@@ -887,6 +987,20 @@ def outcome_labels(case, obs):
     for e in obs['tlog']:
         if e[1] == 'write' and (e[2], e[3]) in wf:
             labs.add('write-fault-' + wf[(e[2], e[3])])
+        if e[1] == 'cwait':
+            labs.add('startup-abandoned-after-comm-failure')
+        if e[1] == 'dopoll':
+            labs.add('regular-loop-first-pass')
+    decls = {d['id']: d for d in all_decls(case)}
+    seen = {(e[1], e[2]) for e in obs['tlog'] if e[1] == 'ireads'} | {(e[1], e[2], e[3]) for e in obs['tlog'] if e[1] == 'read'}
+    for i, d in decls.items():
+        if d.get('ifail') and ('ireads', i) in seen:
+            labs.add('ireads-fault-' + d['ifail'])
+        for k, kind in d.get('rfail') or []:
+            if ('read', i, k) in seen:
+                labs.add('read-fault-' + kind)
+    if any(e[0] == 'cwait' for e in obs['log']):
+        labs.add('comm-failure-before-ready')
     return sorted(labs)
 
 
@@ -897,7 +1011,7 @@ def sample_repr(case, obs):
 # ------------------------------------------------------------------ generators
 def mk_mod(i, **kw):
     d = {'id': i, 'kind': 'plain', 'tag': 0, 'export': True, 'atts': [], 'io': None, 'poll': True, 'writes': [],
-         'fail_early': False, 'fail_init': False, 'hang': False, 'scan': [], 'wfail': []}
+         'fail_early': False, 'fail_init': False, 'hang': False, 'scan': [], 'wfail': [], 'ifail': None, 'rfail': []}
     d.update(kw)
     return d
 
@@ -974,6 +1088,13 @@ def rand_case(rng):
         if d['writes'] and rng.random() < 0.3:
             # fault script: one of the initial writes fails (communication failure, hardware error, programming error)
             d['wfail'] = [[rng.choice(d['writes']), rng.choice(['comm', 'comm', 'hw', 'rt'])]]
+        r = rng.random()
+        if r < 0.06:
+            # fault script of the poll-thread start-up: initialReads raises
+            d['ifail'] = rng.choice(['comm', 'comm', 'comm', 'hw', 'rt'])
+        elif r < 0.12:
+            # ... or the first call of a read function
+            d['rfail'] = [[rng.randrange(2), rng.choice(['comm', 'comm', 'comm', 'hw', 'rt'])]]
     rng.shuffle(mods)        # declaration order is independent of everything else
     tids = all_ids + [IO_BASE + i for i in ids]
     return {'mods': mods, 'sched': rand_sched(rng, tids, rng.choice([0, 5, 15, 30, 50]))}
@@ -1014,6 +1135,29 @@ def handover_cases():
                     yield {'mods': mods, 'sched': ['M'] + [0] * k1 + ['M'] + [0] * k2}
 
 
+def commfail_cases():
+    """2 or 3 modules served by ONE poll thread (the thread of their common communicator), configured values on each;
+    the fault (initialReads / first read of x0 / x1 raises CommunicationFailedError, or another exception) at every
+    position; default schedule, and one where the main thread is overtaken"""
+    for n in (2, 3):
+        for j in range(n):
+            for where in ('ireads', 'read0', 'read1'):
+                for kind in ('comm', 'rt'):
+                    for variant in range(3):
+                        mods = []
+                        for i in range(n):
+                            d = mk_mod(i, kind='hasio', io=['uri', 0],
+                                       writes=[[0], [0, 1], []][(i + variant) % 3], poll=not (variant == 2 and i == n - 1))
+                            if i == j:
+                                if where == 'ireads':
+                                    d['ifail'] = kind
+                                else:
+                                    d['rfail'] = [[int(where[-1]), kind]]
+                            mods.append(d)
+                        tid = IO_BASE
+                        yield {'mods': mods, 'sched': [] if variant != 1 else ['M'] + [tid] * 6 + ['M', 'M', 'M'] + [tid] * 12}
+
+
 def search_cases(seed, mismatching):
     """cases for the targeted search after a broken obligation: the cases on which model and implementation differ,
     then one more quick budget with another seed.  (The default of the framework, a thorough budget of 45000 cases, made
@@ -1038,6 +1182,7 @@ def gen_cases(seed, tier):
         r = random.Random(mask)
         return r.sample(perms, 3)
     cases.extend(handover_cases())
+    cases.extend(commfail_cases())
     for k in (1, 2, 3):
         cases.extend(graph_cases(k, all_orders))
     if tier != 'quick':
@@ -1061,7 +1206,7 @@ def shrink(case):
             yield dict(case, mods=mods[:i] + [dict(d, atts=d['atts'][:j] + d['atts'][j + 1:])] + mods[i + 1:])
         if d.get('scan'):
             yield dict(case, mods=mods[:i] + [dict(d, scan=d['scan'][:-1])] + mods[i + 1:])
-        for key, val in (('wfail', []), ('writes', []), ('hang', False), ('fail_early', False), ('fail_init', False),
+        for key, val in (('wfail', []), ('ifail', None), ('rfail', []), ('writes', []), ('hang', False), ('fail_early', False), ('fail_init', False),
                          ('poll', True), ('export', True)):
             if d.get(key, val) != val and not (key == 'export' and d['kind'] == 'pinata'):
                 yield dict(case, mods=mods[:i] + [dict(d, **{key: val})] + mods[i + 1:])
